@@ -255,13 +255,14 @@ def check_pi(A4, lam, seed, hermitian=True, budget=3000, tol=1e-13):
     from .. import runtime as rt
     u = rt.real().utils
     n = A4.shape[0]
+    kw = {} if tol is None else {"tol": tol}      # tol=None: the routine's own default tolerance
     np.random.seed(seed)
-    v, est = u.power_iteration(rt.q_from4(A4), max_iterations=budget, tol=tol, return_eigenvalue=True)
+    v, est = u.power_iteration(rt.q_from4(A4), max_iterations=budget, return_eigenvalue=True, **kw)
     v4 = rt.q_to4(v).reshape(n, 1, 4)
     if abs(rt.fro(v4) - 1.0) > 1e-10:
         return {"what": "returned vector is not of unit norm", "norm": rt.fro(v4)}
     np.random.seed(seed)
-    v_only = u.power_iteration(rt.q_from4(A4), max_iterations=budget, tol=tol)
+    v_only = u.power_iteration(rt.q_from4(A4), max_iterations=budget, **kw)
     if not np.array_equal(rt.q_to4(v_only).reshape(n, 1, 4), v4):
         return {"what": "vector differs between return_eigenvalue=True and False under the same seed"}
     ray = rt.fro(rt.qmm(rt.qH(v4), rt.qmm(A4, v4))) / rt.fro(rt.qmm(rt.qH(v4), v4))
@@ -336,6 +337,19 @@ def bounded(rep: Report, tier, seed):
                                f"short budgets / default tolerance n={n}", inputs={"A": A4, "seed": sd})
     b.samples.append({"n": 4, "spectrum": [-4.0, 3.2, -2.88, 2.56], "check": "A v = lambda v with lambda = -4"})
     b.done()
+    bs = rep.add_bounded(Bounded("scaled_spectra", "n = 3, 4; the same spectra multiplied by 1e-6, 1e4, 1e8; both signs; default and tight tolerance",
+                                 "the stopping tests are scale free: estimate and eigenpair residual are accurate RELATIVE to |lambda_max| at every scale"))
+    for n in (3, 4):
+        for sign in (1.0, -1.0):
+            base = [sign * 4.0] + [2.0 * ((-1) ** i) * (1 - 0.1 * i) for i in range(n - 1)]
+            A1 = hermitian_from_spectrum(rng, base)
+            for scale in (1e-6, 1e4, 1e8):
+                lam = [scale * x for x in base]
+                A4 = A1 * scale
+                for tol in (None, 1e-13):
+                    bs.case(f"{P}.bounded.scaled_spectra", (n, sign, scale, tol), lambda A4=A4, lam=lam, tol=tol: check_pi(A4, lam, seed, tol=tol),
+                            f"power iteration n={n} dominant {sign * 4.0 * scale:g} tolerance {tol}", facts={"n": n, "scale": scale}, inputs={"A": A4, "spectrum": lam, "seed": seed})
+    bs.done()
     b2 = rep.add_bounded(Bounded("arbitrary_input", "non-Hermitian Gaussian / integer / nilpotent / zero matrices n <= 5", "unit vector and estimate <= ||A||_2; complex-adjoint variant unit"))
     for n in range(1, nmax + 1):
         for kind in ("gauss", "int", "nilpotent", "zero"):
@@ -349,8 +363,8 @@ def bounded(rep: Report, tier, seed):
             for budget in (0, 1, 2, 7, 3000):
                 b2.case(f"{P}.bounded.arbitrary", (n, kind, budget), lambda A4=A4, budget=budget: check_pi(A4, None, seed, hermitian=False, budget=budget, tol=1e-10 if budget == 7 else 1e-13),
                         f"power iteration on a {n}x{n} {kind} matrix, budget {budget}", inputs={"A": A4, "budget": budget})
-            if kind in ("gauss", "int"):
-                for opts in ({}, {"block_purify": False}, {"eigenvalue_format": "quaternion"}, {"block_purify": False, "budget": 3}, {"res_tol": None}):
+            if kind in ("gauss", "int", "nilpotent") and not (kind == "nilpotent" and n == 1):
+                for opts in ({}, {"block_purify": False}, {"eigenvalue_format": "quaternion"}, {"block_purify": False, "budget": 3}, {"res_tol": None}, {"res_tol": None, "block_purify": False}):
                     b2.case(f"{P}.bounded.arbitrary_nh", (n, kind, "nh", tuple(sorted(opts.items()))), lambda A4=A4, opts=opts: check_nh(A4, seed, False, **dict(opts)),
                             f"complex-adjoint variant on a {n}x{n} {kind} matrix {opts}", inputs={"A": A4, "options": {k: str(v) for k, v in opts.items()}})
     b2.samples.append({"n": 3, "kind": "nilpotent"})
